@@ -83,6 +83,9 @@ def gen_sval(rng, s):
 
 
 FRESH = ['a', 'b', 'c', 'd', 'e', 'f', 'g', 'h', 'mint', 'burn', 'transfer', 'x1', 'Default', 'root_', 'do', 'set_delegate']
+# boundary lengths: Tezos allows entrypoint names of at most 31 bytes (1, 2 are in FRESH already)
+N30A, N31A, N31B, N32 = 'n30_' + 'a' * 26, 'm31_' + 'b' * 27, 'z' * 31, 'q' * 32
+FRESH += [N30A, N31A, N31B, N31A, N31B, N32]
 
 
 def gen_name(rng, used, dup_ok=True):
@@ -204,7 +207,7 @@ def spec(t):
     names = [b[0] for b in br]
     own = truthy(t[1])
     allnames = names + ([own] if own else [])
-    wf = len(set(allnames)) == len(allnames)
+    wf = len(set(allnames)) == len(allnames) and all(len(n.encode()) <= 31 for n in allnames)
     root = own or ('root' if 'default' in names else 'default')
     collide = own is None and 'default' in names and 'root' in names
     return dict(wf=wf, branches=br, root=root, collide=collide)
@@ -474,6 +477,12 @@ FIXED_TYPES = [
     # annotated enum-like inner unions (all leaves unit)
     ('or', None, ('or', 'action', ('leaf', 'start', ('unit',), None), ('leaf', 'stop', ('unit',), None), None), ('leaf', 'set', ('nat',), None), None),
     ('or', None, ('leaf', 'set', ('nat',), None), ('or', 'action', ('leaf', None, ('unit',), None), ('or', 'deep', ('leaf', 'x', ('unit',), None), ('leaf', 'y', ('unit',), None), None), None), None),
+    # entrypoint names of the maximal length (31 bytes) and just below
+    ('or', None, ('leaf', N31A, ('nat',), None), ('leaf', N30A, ('int',), None), None),
+    ('or', None, ('or', N31B, ('leaf', None, ('nat',), None), ('leaf', 'x', ('unit',), None), None), ('leaf', None, ('string',), None), None),
+    ('or', N31A, ('leaf', 'a', ('nat',), None), ('leaf', None, ('int',), None), None),
+    ('leaf', N31B, ('nat',), None),
+    ('or', None, ('leaf', N32, ('nat',), None), ('leaf', 'a', ('int',), None), None),
     # non-union roots
     ('leaf', None, ('nat',), None), ('leaf', 'foo', ('unit',), None), ('leaf', '', ('unit',), None), ('leaf', 'default', ('pair', ('or', ('nat',), ('int',)), ('nat',)), None),
     # bare % annotations
